@@ -19,7 +19,8 @@ def grammar(rrel_slots=(), expr=RREL):
     rules = ""
     for c in RULES:
         rules += (f"{c}: '{c.lower()}' one={ref(c + '.one')} ('many' many+={ref(c + '.many')}[','])?;\n")
-    return ("Model: defs*=Def pkgs*=Pkg items*=Item;\n"
+    return ("Model: imports*=Import defs*=Def pkgs*=Pkg items*=Item;\n"
+            "Import: 'import' importURI=STRING;\n"
             "Def:   'def' name=QName;\n"
             "Pkg:   'pkg' name=ID '{' defs*=Def pkgs*=Pkg items*=Item '}';\n"
             "Item:  RA | RB;\n" + rules +
@@ -112,29 +113,39 @@ def run_config(keys, rrel_slots):
 
 
 # ---------------------------------------------------------------- RREL strings registered as providers
-SKELETON = ("def x\ndef p.x\ndef y\n"
+# main model (imports lib.m) and the imported file; the single reference is put at one of three places
+SKELETON = ('import "lib.m"\ndef x\ndef p.x\ndef y\n'
             "pkg p { def x def z pkg q { def y def x %s } %s }\n"
             "pkg q { def y def w }\n%s")
-NAMES = ["x", "y", "z", "w", "p.x", "q.y", "p.q.y", "p.z", "q.w", "nope", "p.nope", "q.x"]
+LIB = "def lx\ndef y\npkg lp { def ly def x }\npkg p { def lz }\n"
+NAMES = ["x", "y", "z", "w", "p.x", "q.y", "p.q.y", "p.z", "q.w", "nope", "p.nope", "q.x",
+         "lx", "lp.ly", "lp.x", "p.lz", "ly"]
 PLACES = [2, 1, 0]           # index of the %s the single reference is put at: top level, in p, in p.q
 KEYS = ["RA.one", "*.one", "RA.*", "*.*"]
 
 
 def _path(o):
+    import os
+    from textx import get_model
     parts = []
+    fn = os.path.basename(get_model(o)._tx_filename or "-")
     while o is not None and hasattr(o, "name"):
         parts.append(o.name)
         o = getattr(o, "parent", None)
-    return "/".join(reversed(parts))
+    return fn + ":" + "/".join(reversed(parts))
 
 
-def load_one(mm, place, name, lst):
+def load_one(mm, workdir, place, name, lst):
+    import os
     slots = ["", "", ""]
     slots[place] = (f"ra {name}" if not lst else f"ra {name} many {name}, {name}")
-    text = SKELETON % tuple(slots)
+    with open(os.path.join(workdir, "lib.m"), "w") as f:
+        f.write(LIB)
+    with open(os.path.join(workdir, "main.m"), "w") as f:
+        f.write(SKELETON % tuple(slots))
     from textx import get_children_of_type
     try:
-        model = mm.model_from_str(text)
+        model = mm.model_from_file(os.path.join(workdir, "main.m"))
     except Exception as e:
         msg = getattr(e, "message", None) or str(e)
         return {"ok": False, "error": type(e).__name__, "message": str(msg)[:200],
@@ -143,17 +154,17 @@ def load_one(mm, place, name, lst):
     return {"ok": True, "targets": [_path(ra.one)] + [_path(t) for t in ra.many]}
 
 
-def string_case(expr, place, name, lst, key):
-    """-> (outcome with the expression in the grammar, outcome with the same string registered under key)."""
+def string_case(expr, place, name, lst, key, workdir):
+    """-> (outcome with the expression in the grammar, outcome with the same string registered under key).
+    The registration happens on a fresh metamodel and the compared load is the first one after it."""
+    from textx import metamodel_from_str
     slots = ("RA.one", "RA.many") if lst else ("RA.one",)
     keys = {key, key.replace("one", "many")} if lst else {key}
-    g = load_one(metamodel(slots, expr), place, name, lst)
-    mm = metamodel(())
+    g = load_one(metamodel(slots, expr), workdir, place, name, lst)
+    mm = metamodel_from_str(grammar(()))
     try:
         mm.register_scope_providers({k: expr for k in sorted(keys)})
-        r = load_one(mm, place, name, lst)
+        r = load_one(mm, workdir, place, name, lst)
     except Exception as e:     # registration itself refused the string
         r = {"ok": False, "error": "register:" + type(e).__name__, "message": str(e)[:200], "line": 0, "col": 0}
-    finally:
-        mm.register_scope_providers({})
     return g, r
